@@ -62,6 +62,7 @@ var DenialKinds = []string{
 	"wildcard-replay", "wildcard-replay-other-nsec", "wildcard-replay-forged-nsec",
 	"ds-nodata-from-child", // DS question: the parent's answer replaced by the child side of the cut (the child's own SOA and apex NSEC/NSEC3, genuinely signed by the child: no DS bit, because DS lives in the parent)
 	"nx-below-delegation", // referral replaced by NXDOMAIN "proven" with the parent's own NSEC/NSEC3 at the delegation point (RFC 6840 4.1: an ancestor delegation record denies nothing below the cut)
+	"nx-below-dname", // DNAME answer replaced by NXDOMAIN "proven" with the zone's own NSEC/NSEC3 at the DNAME owner, which formally covers every name below it (RFC 6672 5.3.2 / RFC 6840 4.1: a record with the DNAME bit at an ancestor denies nothing below it)
 	"nodata-wildcard-no-next-closer", // a type that exists at a name reported absent with the NSEC3 records of the name's parent and of the parent's wildcard only (RFC 5155 8.7 without the next-closer cover: nothing shows the name itself does not exist)
 	"nx-retired-salt", // NXDOMAIN for a name that exists, "proven" with genuine NSEC3 records of the zone's previous chain (other salt, same length)
 }
@@ -679,6 +680,48 @@ func Apply(kind string, a *Answer, attacker, other *Zone) (*dns.Msg, bool) {
 				nc = n
 			}
 			for _, d := range dedupRR([]dns.RR{z.nsec3Covering(nc), z.nsec3Covering("*." + a.Child)}) {
+				m.Ns = append(m.Ns, withSig(z, d)...)
+			}
+		}
+		changed = true
+	case "nx-below-dname":
+		if a.Kind != "dname" || z == nil || !z.Signed || len(m.Question) != 1 {
+			return nil, false
+		}
+		qn := dns.CanonicalName(m.Question[0].Name)
+		owner := ""
+		for _, rr := range m.Answer {
+			if rr.Header().Rrtype == dns.TypeDNAME {
+				owner = dns.CanonicalName(rr.Header().Name)
+			}
+		}
+		if owner == "" || qn == owner || !dns.IsSubDomain(owner, qn) {
+			return nil, false
+		}
+		var rec dns.RR
+		if z.NSEC3 {
+			if r := z.nsec3Matching(owner); r != nil {
+				rec = r
+			}
+		} else if r := z.nsecMatching(owner); r != nil {
+			rec = r
+		}
+		if rec == nil {
+			return nil, false
+		}
+		m.Answer, m.Ns, m.Extra = nil, nil, keepOPT(m.Extra)
+		m.Rcode = dns.RcodeNameError
+		m.Authoritative = true
+		soa := dns.Copy(z.soa()[0])
+		m.Ns = append(m.Ns, soa)
+		m.Ns = append(m.Ns, z.sigsFor([]dns.RR{soa})...)
+		m.Ns = append(m.Ns, withSig(z, rec)...)
+		if z.NSEC3 {
+			nc := qn
+			for n := parentName(qn); n != owner && dns.IsSubDomain(owner, n); n = parentName(n) {
+				nc = n
+			}
+			for _, d := range dedupRR([]dns.RR{z.nsec3Covering(nc), z.nsec3Covering("*." + owner)}) {
 				m.Ns = append(m.Ns, withSig(z, d)...)
 			}
 		}
